@@ -10,7 +10,7 @@ import time
 import traceback
 
 from .index import AnalysisError, Tree
-from .report import Run, VERIF
+from .report import Run, VERIF, load_known
 
 PROPS = [f"C{n:02d}" for n in range(1, 21)]
 
@@ -36,7 +36,9 @@ def cmd_check(prop: str, tier: str) -> int:
         return 2
     try:
         run = run_check(prop, tier)
-        if tier == "thorough" and not run.findings and not run.errors:
+        known = [k for k in load_known() if k.get("status", "known") == "known"]
+        fresh = [f for f in run.findings if not any(k["property"] == f.prop and k["rule"] == f.rule and k["key"] == f.key for k in known)]
+        if tier == "thorough" and not fresh and not run.errors:
             from .selftest import run_selftest
             st = run_selftest(prop, run.tree)
             run.extra["selftest"] = st
